@@ -30,14 +30,15 @@ inductive Cmp | equal | equalButStatesAndTimestamps | different
   deriving DecidableEq, Repr, Inhabited
 
 /-- the per-instance part of `RingCompare`: `none` = Different, `some b` = same data, `b` = states
-and timestamps equal too. Field order as in the Go code. `Id` is derived from the map key
-(`setInstanceIDs`) and `Versions` is NOT compared. -/
+and timestamps equal too. Field order as in the Go code (Versions since fix 0ec0b1e of finding
+F-C13-1). `Id` is derived from the map key (`setInstanceIDs`). -/
 def instCompare (ing oing : Inst) : Option Bool :=
   if ing.addr != oing.addr then none
   else if ing.zone != oing.zone then none
   else if ing.regTs != oing.regTs then none
   else if ing.ro != oing.ro then none
   else if ing.roTs != oing.roTs then none
+  else if ing.versions != oing.versions then none
   else if ing.tokens.length != oing.tokens.length then none
   else if ing.tokens != oing.tokens then none
   else some (ing.ts == oing.ts && ing.state == oing.state)
@@ -58,7 +59,7 @@ def ringCompare (d o : Desc) : Cmp :=
 
 /-- names of the `InstanceDesc` fields read by `RingCompare` (tied to the Go source by `Generated/C13.lean`). -/
 def comparedFields : List String :=
-  ["Addr", "Zone", "RegisteredTimestamp", "ReadOnly", "ReadOnlyUpdatedTimestamp", "Tokens", "Timestamp", "State"]
+  ["Addr", "Zone", "RegisteredTimestamp", "ReadOnly", "ReadOnlyUpdatedTimestamp", "Versions", "Tokens", "Timestamp", "State"]
 /-- fields refreshed when a cached sub-ring is served. -/
 def refreshedFields : List String := ["State", "Timestamp"]
 /-- fields whose change is classified `EqualButStatesAndTimestamps` -/
